@@ -37,6 +37,7 @@ type c17Tok struct {
 	tok    *biscuit.Biscuit
 	signed []int // signing operation that produced each block
 	sealed bool
+	birth  [][]byte // revocation identifiers observed when the token was made
 }
 
 func checkC17(c C17Case, rec *obs.Recorder) *obs.Violation {
@@ -92,6 +93,17 @@ func checkC17(c C17Case, rec *obs.Recorder) *obs.Violation {
 		if len(ids) > maxChain {
 			maxChain = len(ids)
 		}
+		if live[k].birth == nil {
+			for _, id := range ids {
+				live[k].birth = append(live[k].birth, append([]byte{}, id...))
+			}
+		} else {
+			for i := range ids {
+				if !bytes.Equal(ids[i], live[k].birth[i]) {
+					return obs.Violf("history [%s]: identifier %d of token %d changed after it was made (a later operation on another token altered it)", strings.Join(hist, ","), i, k)
+				}
+			}
+		}
 		return nil
 	}
 
@@ -111,6 +123,16 @@ func checkC17(c C17Case, rec *obs.Recorder) *obs.Violation {
 	}
 	for _, op := range c.Ops {
 		on := op.On % len(live)
+		if op.Op == "append-last" {
+			// grow the most recent unsealed token (deep chains), or fork it again
+			op.Op = "append"
+			for k := len(live) - 1 - op.On%2; k >= 0; k-- {
+				if !live[k].sealed {
+					on = k
+					break
+				}
+			}
+		}
 		parent := live[on]
 		switch op.Op {
 		case "build":
@@ -165,9 +187,11 @@ func checkC17(c C17Case, rec *obs.Recorder) *obs.Violation {
 				return v
 			}
 		}
-		// parents stay as they were
-		if v := observe(on, nil); v != nil {
-			return v
+		// every token produced so far stays as it was (parents and siblings alike)
+		for k := range live {
+			if v := observe(k, nil); v != nil {
+				return v
+			}
 		}
 	}
 	if sameContentTwice || maxChain >= 3 {
@@ -192,10 +216,10 @@ func drawC17(t *rapid.T) C17Case {
 	for i := 0; i < nc; i++ {
 		c.Contents = append(c.Contents, drawSimpleBlock(t, s))
 	}
-	n := rapid.IntRange(1, 10).Draw(t, "nops")
+	n := rapid.IntRange(1, 14).Draw(t, "nops")
 	for i := 0; i < n; i++ {
 		c.Ops = append(c.Ops, C17Op{
-			Op:      rapid.SampledFrom([]string{"append", "append", "append", "seal", "reload", "build"}).Draw(t, "op"),
+			Op:      rapid.SampledFrom([]string{"append", "append", "append", "append-last", "append-last", "seal", "reload", "build"}).Draw(t, "op"),
 			On:      rapid.IntRange(0, 11).Draw(t, "on"),
 			Content: rapid.IntRange(0, 1).Draw(t, "content"),
 		})
